@@ -62,7 +62,9 @@ def knownGaps : List (String × String × String) := [
   ("evaluate__substring", "math()", "ValueError"),
   -- helper `double` of numeric_equal_promoted (xpath2/_xpath2_functions.py, added by a C08 fix): float(x)
   -- of a numeric operand, only OverflowError handled; ValueError needs a non-numeric x: unreachable
-  ("double", "float()", "ValueError")]
+  ("double", "float()", "ValueError"),
+  -- math:exp after the `fix:` that returns INF on overflow: math.exp raises ValueError for no float
+  ("evaluate__exp", "math()", "ValueError")]
 
 /-- one generated row: file, function, operation kinds in the `try` body, handler classes -/
 abbrev TryRow := String × String × List String × List String
@@ -75,5 +77,97 @@ def rowOK (r : TryRow) : Bool :=
 def uncovered (t : List TryRow) : List (String × String × String) :=
   t.flatMap fun r => r.2.2.1.flatMap fun k => ((raisable k).filter fun cls =>
     !(covers r.2.2.2 cls || knownGaps.contains (r.2.1, k, cls))).map fun cls => (r.2.1, k, cls)
+
+/-! ## conversions, encodings and table look-ups with NO enclosing handler
+
+`int()/float()/Decimal()` calls, `.encode()/.decode()`/`codecs.*` calls and subscript look-ups in the
+per-call tables (`namespaces`, `variables`, `documents`, `collections`, `text_resources`, `symbol_table`,
+`decimal_formats`, `variable_types`) that sit in an `evaluate…/select…/cast…/nud…/led…` method of the
+operator / function / token modules and are NOT inside the body of any `try` with handlers of that
+method (generated table `EPV.Gen.C03.unguardedSites`).  Each is a place where ValueError /
+OverflowError / InvalidOperation / UnicodeError / KeyError can leave the method unless the operand's
+type or the key has been checked before.  The baseline below is the reviewed state of the reference
+tree; a new unguarded site breaks `EPV.C03.unguarded_sites_baseline`. -/
+def unguardedBaseline : List (String × String × String) := [
+  ("xpath1/_xpath1_operators.py", "evaluate__div_operator", "float()"),          -- operands are numeric (ArithmeticProxy)
+  ("xpath2/_xpath2_functions.py", "evaluate__avg", "Decimal()"),                 -- Decimal(len(values)) / Decimal(int)
+  ("xpath2/_xpath2_functions.py", "evaluate__avg", "int()"),
+  ("xpath2/_xpath2_functions.py", "evaluate__codepoints_to_string", "int()"),    -- F03g: int(UntypedAtomic('x')) -> ValueError
+  ("xpath2/_xpath2_functions.py", "evaluate__days_from_duration", "int()"),      -- int of a Decimal component
+  ("xpath2/_xpath2_functions.py", "evaluate__from_datetime_functions", "Decimal()"),
+  ("xpath2/_xpath2_functions.py", "evaluate__hours_from_duration", "int()"),
+  ("xpath2/_xpath2_functions.py", "evaluate__minutes_from_duration", "int()"),
+  ("xpath2/_xpath2_functions.py", "evaluate__round_half_to_even", "float()"),
+  ("xpath2/_xpath2_functions.py", "evaluate__seconds_from_time", "Decimal()"),
+  ("xpath2/_xpath2_functions.py", "evaluate__timezone_from_datetime", "Decimal()"),
+  ("xpath2/_xpath2_functions.py", "select__subsequence", "float()"),
+  ("xpath30/_xpath30_functions.py", "evaluate__exp10", "float()"),               -- F03h: float(10 ** huge)
+  ("xpath30/_xpath30_functions.py", "evaluate__format_number", "Decimal()"),
+  ("xpath30/_xpath30_functions.py", "evaluate__format_number", "int()"),
+  ("xpath30/_xpath30_functions.py", "evaluate__log", "float()"),
+  ("xpath30/_xpath30_functions.py", "evaluate__log10", "float()"),
+  ("xpath30/_xpath30_functions.py", "evaluate__pow", "float()"),
+  ("xpath30/_xpath30_functions.py", "evaluate__unparsed_text", "lookup:text_resources"),   -- guarded by `uri in …`
+  ("xpath_tokens/base.py", "cast_to_primitive_type", "lookup:symbol_table"),
+  ("xpath_tokens/tokens.py", "evaluate", "lookup:variables"),
+  ("xpath_tokens/tokens.py", "nud", "lookup:symbol_table")]
+
+/-! ## `while` loops of the package and their termination arguments
+
+Generated table `EPV.Gen.C03.whileLoops` = every `while` statement of elementpath/**/*.py as
+(file, function, loop test).  Each must be listed here with its termination argument; a new or edited
+loop breaks `EPV.C03.while_loops_baseline`.  `proved` = a theorem of this property covers the loop on
+its model; `argued` = argument by reading, checked by the hang watchdog of the exploration only. -/
+def whileBaseline : List (String × String × String × String) := [
+  ("decoder.py", "_iter_values", "depth <= 15 and type_ is not None", "argued: depth counter bounded by 15"),
+  ("etree.py", "etree_tostring", "lines and (not lines[-1].strip())", "argued: pops one line per iteration"),
+  ("regex/patterns.py", "parse_character_class", "True", "argued: pos advances by >= 1 per iteration, breaks on ']' or raises at end of pattern"),
+  ("regex/patterns.py", "translate_pattern", "pos < pattern_len", "argued: pos strictly increases"),
+  ("regex/patterns.py", "translate_pattern", "pos < pattern_len and pattern[pos] == ' '", "argued: pos += 1"),
+  ("regex/patterns.py", "translate_pattern", "pattern[pos] != '}'", "argued: pos += 1, IndexError -> coded error at end of pattern"),
+  ("regex/unicode_subsets.py", "iterparse_unicode_data", "cp < maxunicode", "argued: cp strictly increases"),
+  ("regex/unicode_subsets.py", "get_categories", "cpa_int is not None and cpa_int <= cp_int", "argued: consumes an iterator"),
+  ("tdop.py", "iter", "True", "argued: explicit stack over a finite token tree; returns when the stack is empty"),
+  ("tdop.py", "advance_until", "True", "proved: untilLoop is structural on the pending matches (advance2_total)"),
+  ("tdop.py", "expression", "rbp < self.next_token.lbp", "proved in part: every iteration calls advance(), which consumes a match or raises at (end) (advance_consumes); (end).lbp = 0"),
+  ("tree_builders.py", "build_node_tree", "True", "argued: iterator stack over a finite element tree"),
+  ("tree_builders.py", "build_lxml_node_tree", "True", "argued: iterator stack over a finite element tree"),
+  ("tree_builders.py", "build_schema_node_tree", "True", "argued: iterator stack, schema recursion cut by the ancestors list"),
+  ("xpath1/_xpath1_operators.py", "select__predicate", "step.symbol == '[' and step.label != 'array'", "argued: walks down the finite left spine of predicates"),
+  ("xpath2/_xpath2_functions.py", "select__one_or_more", "True", "argued: consumes a generator, StopIteration ends it"),
+  ("xpath2/_xpath2_operators.py", "nud__quantified_expressions", "True", "argued: each iteration advances over `$var in expr`; breaks unless next token is ','; advance consumes (advance_consumes)"),
+  ("xpath2/_xpath2_operators.py", "nud__for_expression", "True", "argued: as nud__quantified_expressions"),
+  ("xpath2/xpath2_parser.py", "advance", "comment_level", "proved: comment_loop_terminates / advance2_total"),
+  ("xpath30/_xpath30_functions.py", "nud", "self.parser.next_token.symbol != ')'", "argued: each iteration advances over a parameter; advance consumes or raises at (end)"),
+  ("xpath30/_xpath30_functions.py", "nud", "True", "argued: as above, breaks unless next token is ','"),
+  ("xpath30/_xpath30_functions.py", "evaluate__format_integer", "chr(cp - 1).isdigit()", "argued: cp decreases, at most 9 steps inside a digit block"),
+  ("xpath30/_xpath30_functions.py", "evaluate__format_number", "v > 10 ** num_digits", "argued: v divided by 10 per iteration"),
+  ("xpath30/_xpath30_functions.py", "evaluate__format_number", "v < 10 ** num_digits", "argued: v multiplied by 10 per iteration, v > 0 checked before"),
+  ("xpath30/_xpath30_functions.py", "evaluate__format_number", "v < 10", "argued: v multiplied by 10 per iteration, v > 0"),
+  ("xpath30/_xpath30_functions.py", "evaluate__analyze_string", "k < len(input_string)", "argued: k advances to the end of each match or by 1"),
+  ("xpath30/_xpath30_operators.py", "nud__let_expression", "True", "argued: as nud__quantified_expressions"),
+  ("xpath30/xpath30_helpers.py", "int_to_alphabetic", "num >= 0", "argued: num = num // base - 1 strictly decreases"),
+  ("xpath30/xpath30_helpers.py", "format_digits", "num_digit", "argued: consumes one digit of a finite string per iteration"),
+  ("xpath30/xpath30_helpers.py", "format_digits", "result and category(result[-1]) not in ('Nd', 'Nl', 'No', 'Lu', 'Ll', 'Lt', 'Lm', 'Lo')", "argued: pops one element per iteration"),
+  ("xpath30/xpath30_helpers.py", "parse_datetime_marker", "pch != '#' and (not pch.isdigit())", "argued: index decreases over a finite string"),
+  ("xpath31/_xpath31_operators.py", "nud__square_array_constructor", "True", "argued: each iteration parses one member; advance consumes or raises at (end)"),
+  ("xpath_context.py", "iter_product", "True", "argued: odometer over finitely many finite selectors; returns when the first is exhausted"),
+  ("xpath_context.py", "iter_ancestors", "parent is not None", "argued: parent chain of a finite tree"),
+  ("xpath_context.py", "iter_preceding", "root.parent is not None", "argued: parent chain of a finite tree"),
+  ("xpath_context.py", "iter_followings", "root.parent is not None and root is not self.root", "argued: parent chain of a finite tree"),
+  ("xpath_nodes.py", "iter_lazy", "True", "argued: iterator stack over a finite tree"),
+  ("xpath_nodes.py", "iter_descendants", "True", "argued: iterator stack over a finite tree"),
+  ("xpath_nodes.py", "apply_schema", "isinstance(root_node.parent, EtreeElementNode)", "argued: parent chain"),
+  ("xpath_nodes.py", "apply_schema", "True", "argued: iterator stack over a finite tree"),
+  ("xpath_nodes.py", "iter", "True", "argued: iterator stack over a finite tree"),
+  ("xpath_tokens/arrays.py", "nud", "True", "argued: one member per iteration; advance consumes or raises at (end)"),
+  ("xpath_tokens/base.py", "get_argument_tokens", "True", "argued: walks down the finite left spine of ',' tokens"),
+  ("xpath_tokens/functions.py", "nud", "True", "argued: one argument per iteration; advance consumes or raises at (end)"),
+  ("xpath_tokens/functions.py", "nud", "k < min_args", "argued: k += 1 per iteration"),
+  ("xpath_tokens/functions.py", "nud", "max_args is None or k < max_args", "argued: one argument per iteration; breaks unless next token is ','; advance consumes or raises at (end)"),
+  ("xpath_tokens/maps.py", "nud", "True", "argued: one entry per iteration; advance consumes or raises at (end)")]
+
+def whileListed (w : String × String × String) : Bool :=
+  whileBaseline.any fun b => b.1 == w.1 && b.2.1 == w.2.1 && b.2.2.1 == w.2.2
 
 end EPV.C03Cover
